@@ -72,8 +72,7 @@ theorem mech_toScale : Generated.CacheMech.toScale.good := by decide
 `lru_cache` is a new obligation -/
 theorem caches_known : Generated.CacheMech.cachedCallables =
     ["_time.TimeArray._jd_delta", "_time.TimeArray.day", "_time.TimeArray.doy", "_time.TimeArray.hour",
-     "_time.TimeArray.jd_frac", "_time.TimeArray.jd_int", "_time.TimeArray.max", "_time.TimeArray.mean",
-     "_time.TimeArray.min", "_time.TimeArray.minute", "_time.TimeArray.mjd_frac", "_time.TimeArray.mjd_int",
+     "_time.TimeArray.jd_frac", "_time.TimeArray.jd_int", "_time.TimeArray.minute", "_time.TimeArray.mjd_frac", "_time.TimeArray.mjd_int",
      "_time.TimeArray.month", "_time.TimeArray.sec_of_day", "_time.TimeArray.second", "_time.TimeArray.year",
      "_time.TimeBase._to_scale", "_time.TimeBase.plot_fields", "_time.TimeBase.to_format",
      "_time.TimeDateTime._dt2jd", "_time.TimeDateTime._jd2dt", "_time.TimeDecimalYear._dy2jd",
@@ -83,9 +82,11 @@ theorem caches_known : Generated.CacheMech.cachedCallables =
      "transformation._llh2trs", "transformation._trs2llh"] := by decide
 
 /-- of the self-keyed caches on the time classes, only these read the receiver's format without
-keying it (none of them is a scale or format conversion; `to_scale` must not be among them) -/
+keying it: the two `plot_fields` (lists of field names, no time values).  `min` / `max` / `mean` were among them
+(their result carries the receiver's format: `t_jd.max` followed by an equal-epoch `t_datetime.max` returned a
+jd-format time) and are no longer cached (843782a); `to_scale` must not be among them. -/
 theorem fmt_dependent_known : Generated.CacheMech.fmtDependentSelfKeyed =
-    ["TimeArray.max", "TimeArray.mean", "TimeArray.min", "TimeBase.plot_fields", "TimeDeltaArray.plot_fields"] := by
+    ["TimeBase.plot_fields", "TimeDeltaArray.plot_fields"] := by
   decide
 
 /-! ### Each mechanism flag is necessary: the defects that were repaired, as model witnesses -/
@@ -244,6 +245,27 @@ example : (run good {} [.create [1, 2, 3, 4], .create [9, 9, 9, 9], .setOther 0 
     = [.done, .done, .done, .conv [1, 2, 3, 4], .der [1, 2, 3, 4] [9, 9, 9, 9], .done, .der [1, 2] [9, 9], .done,
        .der [1, 2] [5, 9], .der [1, 2, 3, 4] [5, 9, 9, 9], .done, .conv [1, 8, 3, 4], .done, .bad] := by decide +kernel
 
+/-- **Attachment chains of any depth** (the other of an other; the `ref_pos` of a delta and its own `other`): taking rows
+of an object takes the same rows of every object along its chain; the invariant survives whatever the depth.
+(`caching_invisible` above is stated for all histories of the machine whose `view` does this.) -/
+theorem chain_view_keeps_invariant {s : State} (hs : Inv s) (rows : List Nat) (fuel p : Nat) (objs' : List Obj) (n : Nat)
+    (h : pushChain good rows fuel s.objs p = some (objs', n)) : Inv { mems := s.mems, objs := objs' } ∧ n < objs'.length :=
+  let r := pushChain_inv rows fuel s hs p objs' n h
+  ⟨r.1, r.2.2⟩
+
+/-- non-vacuity, depth 3 (a → b → c): one `view` makes three new objects (3: rows of c, 4: rows of b, 5: rows of a); a write
+through the rows of c shows in what b, the rows of b and (nothing cached stale) the rows of a return -/
+example : (run good {} [.create [1, 2, 3], .create [4, 5, 6], .create [7, 8, 9], .setOther 0 (some 1), .setOther 1 (some 2),
+      .readDer 0, .readDer 1, .view 0 [0, 1], .readDer 5, .readDer 4, .setItem 3 0 77, .readDer 4, .readDer 1, .readDer 5,
+      .setItem 4 1 55, .readDer 5, .readDer 0, .readConv 1]).2
+    = [.done, .done, .done, .done, .done, .der [1, 2, 3] [4, 5, 6], .der [4, 5, 6] [7, 8, 9], .done, .der [1, 2] [4, 5],
+       .der [4, 5] [7, 8], .done, .der [4, 5] [77, 8], .der [4, 5, 6] [77, 8, 9], .der [1, 2] [4, 5], .done,
+       .der [1, 2] [4, 55], .der [1, 2, 3] [4, 55, 6], .conv [4, 55, 6]] := by decide +kernel
+
+/-- a cyclic attachment has no finite chain: `view` is refused (the real `p[a:b]` ends in `RecursionError`), nothing changes -/
+example : (run good {} [.create [1, 2], .create [3, 4], .setOther 0 (some 1), .setOther 1 (some 0), .view 0 [0], .readDer 0]).2
+    = [.done, .done, .done, .done, .bad, .der [1, 2] [3, 4]] := by decide +kernel
+
 end Midgard.Props.C08.Obj
 
 
@@ -274,3 +296,4 @@ end Midgard.Props.C08.Obj
 #print axioms Midgard.Props.C08.Obj.cache_entries_self_keyed
 #print axioms Midgard.Props.C08.Obj.only_known_bypasses
 #print axioms Midgard.Props.C08.Obj.setItem_clears_own
+#print axioms Midgard.Props.C08.Obj.chain_view_keeps_invariant
